@@ -91,6 +91,49 @@ def double_import_cases(acc, rng, count):
             pr.close()
 
 
+def shadowed_forward_cases(acc, rng, count):
+    """A name used inside a block IN FRONT OF the block's own definition of it, while an outer symbol has the same name, in a
+    program that has no other forward reference (so no pass ends with anything unresolved): the use belongs to the inner
+    definition - that is what the assembler binds it to - and to nothing else."""
+    for _ in range(count):
+        nm = rng.choice(["value", "limit", "colour", "ptr"]) + str(rng.randrange(10))
+        kind = rng.choice(["const", "label"])
+        use = rng.choice(["lda #%s", "ldx #<%s", "ldy #>%s"]) if kind == "const" else rng.choice(["lda %s", "jmp %s", "sta %s,x"])
+        blk = rng.choice(["{", "blk_zz: {"]) if rng.random() < 0.7 else "{"
+        lines = [".const %s = $11" % nm if kind == "const" else "%s: nop" % nm, blk, "    " + use % nm]
+        lines.append("    .const %s = $22" % nm if kind == "const" else "    %s: nop" % nm)
+        lines += ["    rts", "}"]
+        if rng.random() < 0.5:
+            lines.append((use % nm).strip())        # a use of the outer one behind the block
+        files = {"main.asm": "\n".join(lines) + "\n"}
+        col_use = 4 + (use % nm).index(nm)
+        col_inner = 4 + (len(".const ") if kind == "const" else 0)
+        col_outer = len(".const ") if kind == "const" else 0
+        acc.evaluations += 1
+        pr = L.Project(files, open_files=["main.asm"])
+        try:
+            w = {"files": files, "symbol": nm}
+            r = pr.pos_request("textDocument/definition", "main.asm", 2, col_use + 1)
+            if "dead" in r or "timeout" in r:
+                acc.violation("server-died|definition|shadowed-forward", "no answer", dict(w, response=r))
+                continue
+            tgt = [(x["targetSelectionRange"]["start"]["line"], x["targetSelectionRange"]["start"]["character"]) for x in (r.get("result") or [])]
+            if tgt[:1] != [(3, col_inner)]:
+                acc.violation("definition-wrong|shadowed-forward-reference", "the use of %s in front of the block's own definition leads to %s, the assembler binds it to the inner "
+                              "definition at 3:%d" % (nm, tgt, col_inner), dict(w, response=r))
+                continue
+            r2 = pr.pos_request("textDocument/references", "main.asm", 0, col_outer, {"context": {"includeDeclaration": False}})
+            got = sorted((x["range"]["start"]["line"], x["range"]["start"]["character"]) for x in (r2.get("result") or []))
+            exp = [(6, (use % nm).strip().index(nm))] if len(lines) == 7 else []
+            if got != exp:
+                acc.violation("references-extra|shadowed-forward-reference", "references of the OUTER %s: %s, expected %s" % (nm, got, exp), dict(w, response=r2))
+                continue
+            acc.count("shadowed_forward_ok")
+            acc.nontriv("shadowed-forward", files["main.asm"])
+        finally:
+            pr.close()
+
+
 UNTAKEN_WITNESS = ".const x = 1\nsc: {\n    .if 0 {\n        .const x = 2\n    }\n    lda #x\n}\n"
 
 
@@ -128,6 +171,7 @@ def shard(idx, n, seed, tier, params):
     rng = rng_for(seed, "c16", idx)
     t_end = time.time() + params["budget"]
     double_import_cases(acc, rng, 2 if tier == "quick" else 40)
+    shadowed_forward_cases(acc, rng, 2 if tier == "quick" else 30)
     if idx == 0:
         untaken_branch_witness(acc, probe)
     for i in range(params["programs"] // n):
